@@ -258,19 +258,25 @@ def _one_prefix(job):
 def prefix(only=None):
     """every 'fixed' finding must be reported again on the tree just before its fix commit"""
     jobs = []
+    expect = {}
     for k in core.load_known():
         if k.get("status") == "fixed" and (not only or k["property"] in only or k["commit"] in only):
             j = (k["commit"] + "^", k["property"])
             if j not in jobs:
                 jobs.append(j)
+            expect.setdefault(j, []).append(k.get("expect") or [])
     bad = 0
     with ThreadPoolExecutor(max_workers=2) as ex:
         for rev, prop, rc, outp in ex.map(_one_prefix, jobs):
             viol = [ln for ln in outp.splitlines() if ln.startswith("violation:")]
-            if rc == 1:
+            # every finding fixed by that commit must be among the reported violations
+            ok = rc == 1 and all(any(any(e in v for v in viol) for e in exp) or not exp
+                                 for exp in expect[(rev, prop)])
+            if ok:
                 print("before %-10s %s reports: %s" % (rev, prop, "; ".join(v[11:90] for v in viol[:4])))
             else:
                 bad += 1
-                print("before %-10s %s does NOT report (rc=%s)\n%s" % (rev, prop, rc, outp[-400:]))
+                print("before %-10s %s does NOT report the finding (rc=%s): %s\n%s" % (
+                    rev, prop, rc, expect[(rev, prop)], "\n".join(viol[:6]) or outp[-400:]))
     print("%d/%d fixed findings are reported on the tree before their fix" % (len(jobs) - bad, len(jobs)))
     return 2 if bad else 0
